@@ -6,8 +6,11 @@
 cd "$(dirname "$0")/.."
 ids="${*:-$(/venv/bin/python -c "import json; print(' '.join(c['property_id'] for c in json.load(open('MANIFEST.json'))['checks']))")}"
 for c in $ids; do for mode in expect corrupt drop; do
-  out=$(VERIF_SELFTEST=$mode ./check $c --tier quick 2>&1); rc=$?
-  echo "$c $mode rc=$rc violations=$(echo "$out" | grep -c '^VIOLATION') known=$(echo "$out" | grep -c '^KNOWN-FINDING') $(echo "$out" | grep -m1 'MACHINERY' | cut -c1-120)"
+  log=$(mktemp /var/tmp/selftest.XXXXXX)
+  out=$(VERIF_SELFTEST=$mode VERIF_SELFTEST_LOG=$log ./check $c --tier quick 2>&1); rc=$?
+  n=$(wc -l < $log); rm -f $log
+  verdict="DETECTED"; [ $rc -eq 0 ] && verdict="MISSED"; [ $n -eq 0 ] && verdict="n/a (this check has no such artefact)"
+  echo "$c $mode sabotaged=$n $verdict rc=$rc violations=$(echo "$out" | grep -c '^VIOLATION') known=$(echo "$out" | grep -c '^KNOWN-FINDING') $(echo "$out" | grep -m1 'MACHINERY' | cut -c1-120)"
 done; done
 # the evidence files written by sabotaged runs are not evidence: restore them
 git checkout -- evidence 2>/dev/null
